@@ -40,11 +40,11 @@ def _user_funcs(tree):
     return {n.name for n in ast.walk(tree) if isinstance(n, ast.FunctionDef)}
 
 
-def triggers_of(src):
+def triggers_of(src, library=False):
     if isinstance(src, dict):
         out = set()
         for k, v in src.items():
-            t = set(triggers_of(v))
+            t = set(triggers_of(v, library=(k != "")))
             if k != "":
                 # whether the top-level script terminates is a property of the main file only
                 t -= {"main_terminates", "main_terminates_and_calls_function"}
@@ -157,6 +157,10 @@ def triggers_of(src):
             for m in ast.walk(s_):
                 if isinstance(m, ast.Call) and isinstance(m.func, ast.Name) and m.func.id in fdefs:
                     top_calls.append(m.func.id)
+    if library:
+        # functions of a library module are called from the main file (m.f(..)): every one may be reachable,
+        # and such a call counts as a call site outside any function
+        top_calls = top_calls + list(fdefs)
     reachable = set()
     work = list(top_calls)
     while work:
@@ -255,6 +259,12 @@ def triggers_of(src):
         if isinstance(n, ast.Call) and isinstance(n.func, ast.Name) and n.func.id in ("sin", "cos", "tan", "asin", "acos", "atan", "atan2", "sqrt", "log", "exp") and n.func.id not in fdefs:
             if any(isinstance(m, ast.Call) and isinstance(m.func, ast.Name) and m.func.id == "HASH" for a in n.args for m in ast.walk(a)):
                 t.add("math_function_of_hash")
+    # STR(..) as an operand of an operator: foldable only in compact mode (verbose carries it as a string)
+    for n in ast.walk(tree):
+        if isinstance(n, (ast.BinOp, ast.UnaryOp, ast.Compare, ast.BoolOp)):
+            kids = [n.left, n.right] if isinstance(n, ast.BinOp) else [n.operand] if isinstance(n, ast.UnaryOp) else ([n.left] + n.comparators) if isinstance(n, ast.Compare) else n.values
+            if any(isinstance(k, ast.Call) and isinstance(k.func, ast.Name) and k.func.id == "STR" for k in kids):
+                t.add("str_as_operator_operand")
     # user data in the part of the chip's own stack that the call conventions use (push ra from cell 0 upwards,
     # arguments / results in the top cells)
     for n in ast.walk(tree):
